@@ -2,6 +2,7 @@
 from lib import core, gen
 
 LEVEL = 'other'
+HISTORY = {}                  # id -> calls made before it on the same thread (history cases)
 BBH_FEATURES = ['reason', 'oracle']      # harness command families this check needs (fallback build, lib/core.py build_bbh)
 DEPTHS = [0, 1, 2, 3, 5, 8, 13, 30, 300]
 GOALS = ['halt', 'blank', 'spin']
@@ -126,6 +127,18 @@ def run(rep, tier, seed):
     h = core.run_bbh(lines)
     m = core.run_bbm(lines)
     diffs = core.diff_answers(cs, h, m)
+    # HISTORIES: sibling programs (one-slot edits of one table, also tables of 9+ slots) asked in a row on ONE thread:
+    # the answer must not depend on what was asked before (per-thread caches, memo tables with lossy keys, reused buffers)
+    hrng = core.mkrng(seed, 'C04-hist')
+    hcs = gen.history_cases(hrng, 120 if tier == 'quick' else 1500, lambda r, S, C: (lambda g, d: (lambda p: f'bw|{g}|{p}|{d}'))(r.choice(GOALS), r.choice([3, 8, 13, 30])))
+    hl = [f'{i}|{l}' for i, l in hcs]
+    hh, hm = core.run_bbh(hl, threads=1), core.run_bbm(hl)
+    diffs += core.diff_answers(hcs, hh, hm)
+    cs = cs + hcs
+    h.update(hh)
+    m.update(hm)
+    global HISTORY
+    HISTORY = gen.history_of(hcs)
     # every answer inside a wrapper sequence is a claim of its own
     cs_claims = [c for c in cs if not c[1].startswith('bwpyseq')]
     h_claims = dict(h)
@@ -207,6 +220,7 @@ def run(rep, tier, seed):
 
 def search(rep, diffs, fails):
     for cid, line, why in fails[:3]:
+        why = gen.hist_note(why, HISTORY.get(cid))
         _, g, p, d = line.split('|')
         rep.violation({'kind': 'property-failure', 'goal': g, 'program': p, 'depth': int(d), 'why': why}, found=True)
     if fails:
